@@ -338,7 +338,13 @@ class PipeStream(Stream):
         data = []
         try:
             while count > 0:
-                buf = os.read(self.incoming.fileno(), min(self.MAX_IO_CHUNK, count))
+                try:
+                    buf = os.read(self.incoming.fileno(), min(self.MAX_IO_CHUNK, count))
+                except EnvironmentError:
+                    if get_exc_errno(sys.exc_info()[1]) in retry_errnos:
+                        # a non-blocking pipe with nothing to read yet: transient, as for sockets
+                        continue
+                    raise
                 if not buf:
                     raise EOFError("connection closed by peer")
                 data.append(buf)
